@@ -49,6 +49,15 @@ def apply(op, root, out):
             shutil.rmtree(O(op[1]))
         elif k == "touch":
             open(R(op[1] + "/f"), "w").close()
+        elif k == "burst":
+            # a nested tree appearing at once (mkdir -p style): handled by the reader's directory walk
+            os.makedirs(O("tmp_" + op[1] + "/d0/x"))
+            for n in ("d1", "d2", "d3"):
+                os.makedirs(O("tmp_" + op[1] + "/" + n))
+                open(O("tmp_" + op[1] + "/" + n + "/f"), "w").close()
+            os.rename(O("tmp_" + op[1]), O("stage"))
+            shutil.copytree(O("stage"), R(op[1]))
+            shutil.rmtree(O("stage"))
         return True
     except OSError:
         return False
@@ -69,6 +78,7 @@ def run_history(ops, recursive=True, inject=None):
     os.mkdir(out)
     os.mkdir(os.path.join(root, "pre"))
     problems, known = [], []
+    failed = []
     real_add = ic.inotify_add_watch
     ino = Inotify(root.encode(), recursive=recursive)
     try:
@@ -78,6 +88,7 @@ def run_history(ops, recursive=True, inject=None):
             def limited(fd, path, mask):
                 cnt[0] += 1
                 if cnt[0] == inject[0]:
+                    failed.append(os.fsdecode(path))
                     ctypes.set_errno(inject[1])
                     return -1
                 return real_add(fd, path, mask)
@@ -95,10 +106,10 @@ def run_history(ops, recursive=True, inject=None):
                 problems.append(f"after {op}: read_events raised {type(e).__name__}: {e}")
                 return problems, known
         ic.inotify_add_watch = real_add
-        if inject:
-            return problems, known  # with injected watch failures some directories are legitimately unwatched
-        # ---- probes
+        # ---- probes (a directory whose own watch the kernel refused is legitimately unwatched; its siblings are not)
         for d in dirs_under(root):
+            if any(d == f or d.startswith(f + "/") for f in failed):
+                continue
             deep = d != root and os.path.dirname(d) != root
             probe = os.path.join(d, "probe")
             open(probe, "w").close()
@@ -174,8 +185,8 @@ def main():
                     bat.fail(f"{WHICH}.moved-in-directory-not-watched", m, {"ops": [list(o) for o in ops], "recursive": recursive, "expect": "known"}, "Inotify.read_events")
             if pr:
                 bat.fail(f"{WHICH}.history", pr[0], {"ops": [list(o) for o in ops], "recursive": recursive, "problems": pr[:2]}, "Inotify.read_events")
-    burst = [("mkdir", "a"), ("mkdir2", "a", "b"), ("mkdir", "b"), ("mkdir2", "b", "a"), ("touch", "a")]
-    for pos in (1, 2, 3):
+    burst = [("mkdir", "a"), ("mkdir2", "a", "b"), ("mkdir", "b"), ("mkdir2", "b", "a"), ("touch", "a"), ("burst", "c")]
+    for pos in (1, 2, 3, 4, 5, 6):
         for err in (errno.ENOSPC, errno.ENOENT):
             bat.case(("inject", pos, err))
             pr, kn = run_history(burst, True, (pos, err))
